@@ -9,7 +9,7 @@ import pandas as pd
 from .. import scenes, obs, oracles, pipeline, twin
 
 ID, NUM, LEVEL = 'C12', 12, 'exploration'
-RULE = ('Evaluation = one scene run with the same effective parameter values through four routes: (1) per-call '
+RULE = ('(Routes are also run in workers under a legacy non-UTF-8 locale with non-ASCII instrument names in the exclusion list; per-call dictionaries naming every top-level key with partial sections; unknown entries listed first.) ' 'Evaluation = one scene run with the same effective parameter values through four routes: (1) per-call '
         'dict, (2) in-place edits of dynamic.AMPYCLOUD_PRMS, (3) a YAML file written by the harness + set_prms, '
         '(4) a per-call dict naming EVERY leaf while the global holds poison (wrong-typed sentinels in every leaf '
         'except MPL_STYLE), so that a stray read of the live global changes the digest or raises. Oracle: the four '
